@@ -512,7 +512,7 @@ func main() {
 				out := filepath.Join(work, fmt.Sprintf("shard-%d-%d.jsonl", j.from, j.to))
 				env := append(goEnv(), "GOMAXPROCS=1", "VERIF_PROP="+prop, "VERIF_TIER="+*tier, fmt.Sprintf("VERIF_BASE=%d", seed),
 					fmt.Sprintf("VERIF_FROM=%d", j.from), fmt.Sprintf("VERIF_TO=%d", j.to), "VERIF_OUT="+out)
-				cmd := exec.Command(bin, "-test.run", "^TestWorker$", "-test.timeout", "30m")
+				cmd := exec.Command(bin, "-test.run", "^TestWorker$", "-test.timeout", "8m")
 				cmd.Env = env
 				cmd.Dir = work
 				var buf bytes.Buffer
@@ -990,7 +990,7 @@ func selftest(bin, work string, runs, workers int) int {
 		for ci, gmp := range []string{"1", "4", "16", "1"} {
 			out := filepath.Join(work, fmt.Sprintf("self-%s-%d.jsonl", prop, ci))
 			env := append(goEnv(), "GOMAXPROCS="+gmp, "VERIF_PROP="+prop, "VERIF_TIER=quick", "VERIF_BASE=7", "VERIF_FROM=0", fmt.Sprintf("VERIF_TO=%d", runs), "VERIF_OUT="+out)
-			cmd := exec.Command(bin, "-test.run", "^TestWorker$", "-test.timeout", "30m")
+			cmd := exec.Command(bin, "-test.run", "^TestWorker$", "-test.timeout", "8m")
 			cmd.Env = env
 			cmd.Dir = work
 			if outb, err := cmd.CombinedOutput(); err != nil {
